@@ -1,0 +1,118 @@
+//go:build verif
+
+// Contracts for the deductive verifier under /verif (govc). Comment-only file: it adds no code and is
+// compiled only with the build tag "verif".
+
+package json
+
+//@ pred isDigitBytes(b bytes.Bytes) := isdigits(b.data, len(b.data))
+//@ pred wfNumber(n Number) := 0 <= n.exp && n.exp <= len(n.nat.data) && isDigitBytes(n.nat)
+//@     && (len(n.nat.data) > n.exp ==> n.nat.data[0] != 48)
+//@     && (n.exp > 0 ==> n.nat.data[len(n.nat.data)-1] != 48)
+//@     && (len(n.nat.data) == 0 ==> !n.neg)
+
+//@ func (Number).cmpInt
+//@   property C13 C01
+//@   requires nn != nil && wfNumber(n) && wfNumber(*nn)
+//@   let xl := len(n.nat.data) - n.exp
+//@   let yl := len(nn.nat.data) - nn.exp
+//@   ensures r == sgn(natval(n.nat.data, xl) - natval(nn.nat.data, yl))
+//@   no_panic
+//@   loop#1 invariant 0 <= i && i <= xLen && xLen == yLen && xLen == xl && yLen == yl
+//@   loop#1 invariant x.data.arr == n.nat.data.arr && x.data.off == n.nat.data.off && len(x.data) == xl
+//@   loop#1 invariant y.data.arr == nn.nat.data.arr && y.data.off == nn.nat.data.off && len(y.data) == yl
+//@   loop#1 invariant forall j :: 0 <= j && j < i ==> x.data[j] == y.data[j]
+//@   loop#1 decreases xLen - i
+//@   at return#1 use natval_lt_pow10(n.nat.data, xl); natval_lt_pow10(nn.nat.data, yl)
+//@   at return#1 use natval_ge_pow10(n.nat.data, xl); natval_ge_pow10(nn.nat.data, yl)
+//@   at return#1 use pow10_mono(xl, yl - 1); pow10_mono(yl, xl - 1); unfold_natval(n.nat.data, 0); unfold_natval(nn.nat.data, 0)
+//@   at return#2 use natval_prefix(x.data, y.data, i); unfold_natval(x.data, i+1); unfold_natval(y.data, i+1)
+//@   at return#2 use natval_lt_mono(x.data, y.data, i+1, xLen)
+//@   at return#3 use natval_prefix(x.data, y.data, i); unfold_natval(x.data, i+1); unfold_natval(y.data, i+1)
+//@   at return#3 use natval_lt_mono(y.data, x.data, i+1, xLen)
+//@   at return#4 use natval_prefix(x.data, y.data, xLen)
+
+//@ func (Number).cmpFra
+//@   property C13 C01
+//@   requires nn != nil && wfNumber(n) && wfNumber(*nn)
+//@   let xf := n.nat.data[len(n.nat.data)-n.exp:]
+//@   let yf := nn.nat.data[len(nn.nat.data)-nn.exp:]
+//@   let L := n.exp > nn.exp ? n.exp : nn.exp
+//@   let xv := natval(xf, n.exp)
+//@   let yv := natval(yf, nn.exp)
+//@   ghost PX (Array Int Int) := ispad(xf, n.exp, PX)
+//@   ghost PY (Array Int Int) := ispad(yf, nn.exp, PY)
+//@   ensures r == sgn(scaled(xv, L - n.exp) - scaled(yv, L - nn.exp))
+//@   no_panic
+//@   loop#1 invariant 0 <= i && i <= length && length == L && xLen == n.exp && yLen == nn.exp
+//@   loop#1 invariant x.data.arr == xf.arr && x.data.off == xf.off && len(x.data) == n.exp
+//@   loop#1 invariant y.data.arr == yf.arr && y.data.off == yf.off && len(y.data) == nn.exp
+//@   loop#1 invariant forall j :: 0 <= j && j < i ==> PX[j] == PY[j]
+//@   loop#1 decreases length - i
+//@   at return use natval_pad(old(xf), n.exp, PX, L); natval_pad(old(yf), nn.exp, PY, L)
+//@   at return use unfold_scaled(xv, 0); unfold_scaled(yv, 0)
+//@   at return#1 use natval_prefix(PX, 0, PY, 0, i); unfold_natval(PX, 0, i+1); unfold_natval(PY, 0, i+1)
+//@   at return#1 use natval_lt_mono(PX, 0, PY, 0, i+1, L)
+//@   at return#2 use natval_prefix(PX, 0, PY, 0, i); unfold_natval(PX, 0, i+1); unfold_natval(PY, 0, i+1)
+//@   at return#2 use natval_lt_mono(PY, 0, PX, 0, i+1, L)
+//@   at return#3 use natval_prefix(PX, 0, PY, 0, L)
+
+//@ func (Number).cmpAbs
+//@   property C13 C01
+//@   requires nn != nil && wfNumber(n) && wfNumber(*nn)
+//@   ensures r == deccmp(natval(n.nat.data, len(n.nat.data)-n.exp), natval(n.nat.data[len(n.nat.data)-n.exp:], n.exp), n.exp,
+//@                       natval(nn.nat.data, len(nn.nat.data)-nn.exp), natval(nn.nat.data[len(nn.nat.data)-nn.exp:], nn.exp), nn.exp)
+//@   no_panic
+
+//@ fun numOrder(n Number, m Number) := numcmp(n.neg, natval(n.nat.data, len(n.nat.data)-n.exp), natval(n.nat.data[len(n.nat.data)-n.exp:], n.exp), n.exp,
+//@                       m.neg, natval(m.nat.data, len(m.nat.data)-m.exp), natval(m.nat.data[len(m.nat.data)-m.exp:], m.exp), m.exp)
+
+//@ func (Number).Cmp
+//@   property C13 C01
+//@   requires nn != nil && wfNumber(n) && wfNumber(*nn)
+//@   ensures result == numOrder(n, *nn)
+//@   no_panic
+//@   let xl := len(n.nat.data) - n.exp
+//@   let yl := len(nn.nat.data) - nn.exp
+//@   let xf := n.nat.data[len(n.nat.data)-n.exp:]
+//@   let yf := nn.nat.data[len(nn.nat.data)-nn.exp:]
+//@   at return#3 use natval_ge_pow10(n.nat.data, xl); pow10_pos(xl-1); unfold_natval(xf, n.exp); natval_lt_pow10(xf, n.exp-1); natval_lt_pow10(n.nat.data, xl)
+//@   at return#4 use natval_ge_pow10(nn.nat.data, yl); pow10_pos(yl-1); unfold_natval(yf, nn.exp); natval_lt_pow10(yf, nn.exp-1); natval_lt_pow10(nn.nat.data, yl)
+//@   at return#4 use natval_ge_pow10(n.nat.data, xl); pow10_pos(xl-1); unfold_natval(xf, n.exp); natval_lt_pow10(xf, n.exp-1); natval_lt_pow10(n.nat.data, xl)
+//@   at return#3 use natval_ge_pow10(nn.nat.data, yl); pow10_pos(yl-1); unfold_natval(yf, nn.exp); natval_lt_pow10(yf, nn.exp-1); natval_lt_pow10(nn.nat.data, yl)
+
+//@ func (Number).Equal
+//@   property C13 C01
+//@   requires nn != nil && wfNumber(n) && wfNumber(*nn)
+//@   ensures result == (numOrder(n, *nn) == 0)
+//@   no_panic
+
+//@ func (Number).GreaterThan
+//@   property C13 C01
+//@   requires nn != nil && wfNumber(n) && wfNumber(*nn)
+//@   ensures result == (numOrder(n, *nn) > 0)
+//@   no_panic
+
+//@ func (Number).GreaterThanOrEqual
+//@   property C13 C01
+//@   requires nn != nil && wfNumber(n) && wfNumber(*nn)
+//@   ensures result == (numOrder(n, *nn) >= 0)
+//@   no_panic
+
+//@ func (Number).LessThan
+//@   property C13 C01
+//@   requires nn != nil && wfNumber(n) && wfNumber(*nn)
+//@   ensures result == (numOrder(n, *nn) < 0)
+//@   no_panic
+
+//@ func (Number).LessThanOrEqual
+//@   property C13 C01
+//@   requires nn != nil && wfNumber(n) && wfNumber(*nn)
+//@   ensures result == (numOrder(n, *nn) <= 0)
+//@   no_panic
+
+//@ func (Number).LengthOfFractionalPart
+//@   property C13 C01
+//@   requires wfNumber(n)
+//@   ensures result == n.exp
+//@   no_panic
